@@ -1,5 +1,6 @@
 import ModbusModel.Lemmas.Health
 import ModbusModel.Lemmas.Call
+import ModbusModel.Lemmas.Independent
 /-
   C12 – A failed call never desynchronises the calls that follow it.
 -/
@@ -193,5 +194,36 @@ example : ∀ op ∈ [Op.call (.readCoils 0 1) { reads := [.data [1, 2, 3, 4, 5,
   intro op h
   simp only [List.mem_cons, List.mem_nil_iff, or_false] at h
   rcases h with rfl | rfl | rfl <;> simp [benign, ReadEv.isOpen]
+
+
+/-- **history independence** – the general form of (b): after ANY benign history the next call –
+    any request, on a transport that may do anything at all (faults, fragments, surplus, end of
+    stream), polled any number of times – returns what the same call returns on a fresh client
+    that has selected the same unit and will stamp the same transaction id; the same bytes reach
+    the transport and the transport is left in the same state.  Nothing else of the history
+    survives. -/
+theorem call_after_history_as_on_fresh_client (k : Kind) (slave : UInt8) (ops : List Op)
+    (hops : ∀ op ∈ ops, benign op) (req : Request) (t : Transport) (b : Budget) :
+    let cH := (runOps (Client.attachSlave k slave) {} ops).2.1
+    let fresh : Client := { kind := k, unit := cH.unit, nextTid := cH.nextTid }
+    (cH.call req t b).1 = (fresh.call req t b).1 ∧ (cH.call req t b).2.2 = (fresh.call req t b).2.2 := by
+  intro cH fresh
+  have hc := history_clean ops _ _ (attach_clean k slave) hops
+  have hkind : cH.kind = k := history_kind ops _ _
+  obtain ⟨f, hf⟩ := Option.isSome_iff_exists.mp hc.connected
+  have hh := hc.healthy f hf
+  have hw : f.wbuf = [] := by simpa [Client.wbuf, hf] using hc.wbuf
+  exact call_independent_of_past cH fresh f {} req t b hf rfl hkind rfl rfl hw hh.1 rfl hh.2 rfl
+
+-- non-vacuity: after a junk reply and an abandoned call, a call whose reply is cut by a read error
+-- returns the same transport error as on a fresh client that stamps transaction id 2
+example :
+    let cH := (runOps (Client.attachSlave .tcp 7) {}
+      [Op.call (.readCoils 0 1) { reads := [.data [1, 2, 3, 4, 5, 6, 7, 8, 9]] } none,
+       Op.call (.readCoils 0 1) { reads := [.pending, .pending] } (some 2)]).2.1
+    cH.nextTid = 2
+    ∧ (cH.call (.readHoldingRegisters 0 1) { reads := [.data [0, 2, 0, 0, 0, 5, 7, 3], .err (.injected 3)] } none).1
+        = .done (.transport (.injected 3)) := by
+  decide +kernel
 
 end Modbus.Props.C12
